@@ -52,6 +52,85 @@ func c07PackNal(seq *uint16, ts uint32, last bool, nal []byte, max int) []rtprtc
 	return out
 }
 
+var (
+	c07HevcVps = []byte{0x40, 0x01, 0x0c, 0x01, 0xff, 0xff, 0x01, 0x60, 0x00, 0x00, 0x03, 0x00, 0x90, 0x00, 0x00, 0x03, 0x00, 0x00, 0x03, 0x00, 0x3f, 0xba, 0x02, 0x40}
+	c07HevcSps = []byte{0x42, 0x01, 0x01, 0x01, 0x60, 0x00, 0x00, 0x03, 0x00, 0x90, 0x00, 0x00, 0x03, 0x00, 0x00, 0x03, 0x00, 0x3f, 0xa0, 0x05, 0x02, 0x01, 0x71, 0xf2, 0xe5, 0xba, 0x4a, 0x4c, 0x2f, 0x01, 0x01, 0x00, 0x00, 0x03, 0x00, 0x01, 0x00, 0x00, 0x03, 0x00, 0x0f, 0x08}
+	c07HevcPps = []byte{0x44, 0x01, 0xc0, 0x73, 0xc1, 0x89}
+)
+
+// c07PackNalHevc packetises one H.265 NAL unit per RFC 7798: single NAL unit packet if it fits,
+// fragmentation units (type 49) otherwise: PayloadHdr = NAL header with type 49, FU header = S|E|FuType,
+// the two NAL header bytes are not repeated in the fragments.
+func c07PackNalHevc(seq *uint16, ts uint32, last bool, nal []byte, max int) []rtprtcp.RtpPacket {
+	var out []rtprtcp.RtpPacket
+	if len(nal) <= max {
+		out = append(out, c07Rtp(*seq, ts, last, 96, nal))
+		*seq++
+		return out
+	}
+	h0 := nal[0]&0x81 | 49<<1
+	h1 := nal[1]
+	typ := nal[0] >> 1 & 0x3f
+	rest := nal[2:]
+	first := true
+	for len(rest) > 0 {
+		k := max - 3
+		if k > len(rest) {
+			k = len(rest)
+		}
+		fu := typ
+		if first {
+			fu |= 0x80
+		}
+		if k == len(rest) {
+			fu |= 0x40
+		}
+		pl := append([]byte{h0, h1, fu}, rest[:k]...)
+		out = append(out, c07Rtp(*seq, ts, last && k == len(rest), 96, pl))
+		*seq++
+		rest = rest[k:]
+		first = false
+	}
+	return out
+}
+
+// c07HvccSets is a reference reader of the hvcC arrays of an RTMP HEVC sequence header (ISO/IEC 14496-15).
+func c07HvccSets(p []byte) (vps, sps, pps []byte, ok bool) {
+	if len(p) < 28 || p[0] != 0x1c || p[1] != 0 || p[5] != 1 {
+		return
+	}
+	n := int(p[27])
+	i := 28
+	for a := 0; a < n; a++ {
+		if len(p) < i+3 {
+			return
+		}
+		t := p[i] & 0x3f
+		cnt := int(p[i+1])<<8 | int(p[i+2])
+		i += 3
+		for c := 0; c < cnt; c++ {
+			if len(p) < i+2 {
+				return
+			}
+			l := int(p[i])<<8 | int(p[i+1])
+			i += 2
+			if len(p) < i+l {
+				return
+			}
+			switch t {
+			case 32:
+				vps = p[i : i+l]
+			case 33:
+				sps = p[i : i+l]
+			case 34:
+				pps = p[i : i+l]
+			}
+			i += l
+		}
+	}
+	return vps, sps, pps, i == len(p)
+}
+
 type c07Sink struct{ msgs []base.RtmpMsg }
 
 func (s *c07Sink) on(msg base.RtmpMsg) { s.msgs = append(s.msgs, msg.Clone()) }
@@ -73,36 +152,76 @@ func c07Nals(b []byte) ([][]byte, bool) {
 	return out, true
 }
 
-// VerifC07Rtsp: an H.264 elementary stream packetised by the reference packetiser (single NAL, FU-A,
-// optional in-band parameter sets by STAP-A) and delivered in a symbolic order reaches the RTMP side with
-// sequence header, NAL units byte for byte and key frames marked.
+// VerifC07Rtsp: an H.264 / H.265 elementary stream packetised by the reference packetiser (single NAL,
+// FU-A / FU, optional in-band parameter sets by STAP-A / AP, optional extra unit before the IDR slice) and
+// delivered in a symbolic order reaches the RTMP side with sequence header, NAL units byte for byte and
+// key frames marked.
 func VerifC07Rtsp() {
 	nl := vrt.Param("nlen")
 	max := vrt.Param("max")
+	hevc := vrt.Param("codec") == 1
 	sink := &c07Sink{}
 	rm := NewAvPacket2RtmpRemuxer().WithOnRtmpMsg(sink.on)
-	rm.InitWithAvConfig(nil, nil, c05Sps, c05Pps)
-	un := rtprtcp.DefaultRtpUnpackerFactory(base.AvPacketPtAvc, 90000, 1024, func(pkt base.AvPacket) { rm.FeedAvPacket(pkt) })
+	pt := base.AvPacketPtAvc
+	if hevc {
+		pt = base.AvPacketPtHevc
+		rm.InitWithAvConfig(nil, c07HevcVps, c07HevcSps, c07HevcPps)
+	} else {
+		rm.InitWithAvConfig(nil, nil, c05Sps, c05Pps)
+	}
+	un := rtprtcp.DefaultRtpUnpackerFactory(pt, 90000, 1024, func(pkt base.AvPacket) { rm.FeedAvPacket(pkt) })
+	pack := c07PackNal
+	if hevc {
+		pack = c07PackNalHevc
+	}
 
 	seq := vrt.U16("seq0")
 	ts1 := uint32(vrt.Param("ts1"))
-	idr := c06Nal("idr", 0, nl)
-	slice := c06Nal("slice", 1, nl)
+	idr := c06Nal("idr", hevc, 0, nl)
+	slice := c06Nal("slice", hevc, 1, nl)
+	var extra []byte // optional unit before the IDR slice in the first access unit: SEI (2) or arbitrary other type (4)
+	if x := vrt.Param("x"); x > 0 {
+		extra = c06Nal("extra", hevc, x, nl)
+		// types that RTP reserves for its own payload structures cannot travel as single NAL unit packets
+		// (RFC 6184 5.2: 24-29, 30-31 undefined; RFC 7798 4.4: 48-50, 51-63 unspecified)
+		if hevc {
+			vrt.Assume(c06Type(true, extra[0]) < 48)
+		} else {
+			vrt.Assume(c06Type(false, extra[0]) < 24)
+		}
+	}
 	var pkts []rtprtcp.RtpPacket
-	// anchor: a one-byte-header AUD as its own packet establishes the expected sequence number
-	pkts0 := c07PackNal(&seq, ts1, false, []byte{0x09, 0xf0}, max+10)
+	// anchor: an AUD as its own packet establishes the expected sequence number
+	aud := []byte{0x09, 0xf0}
+	if hevc {
+		aud = []byte{0x46, 0x01, 0x50}
+	}
+	pkts0 := pack(&seq, ts1, false, aud, max+10)
 	if vrt.Param("inband") == 1 {
-		// STAP-A carrying SPS and PPS again (in-band parameter sets)
-		st := []byte{24, 0, byte(len(c05Sps))}
-		st = append(st, c05Sps...)
-		st = append(st, 0, byte(len(c05Pps)))
-		st = append(st, c05Pps...)
+		var st []byte
+		if hevc {
+			// aggregation packet (type 48) carrying VPS, SPS and PPS again
+			st = []byte{48 << 1, 1}
+			for _, ps := range [][]byte{c07HevcVps, c07HevcSps, c07HevcPps} {
+				st = append(st, byte(len(ps)>>8), byte(len(ps)))
+				st = append(st, ps...)
+			}
+		} else {
+			// STAP-A carrying SPS and PPS again (in-band parameter sets)
+			st = []byte{24, 0, byte(len(c05Sps))}
+			st = append(st, c05Sps...)
+			st = append(st, 0, byte(len(c05Pps)))
+			st = append(st, c05Pps...)
+		}
 		pkts = append(pkts, c07Rtp(seq, ts1, false, 96, st))
 		seq++
 	}
-	pkts = append(pkts, c07PackNal(&seq, ts1, true, idr, max)...)
+	if extra != nil {
+		pkts = append(pkts, pack(&seq, ts1, false, extra, max)...)
+	}
+	pkts = append(pkts, pack(&seq, ts1, true, idr, max)...)
 	ts2 := ts1 + 3600
-	pkts = append(pkts, c07PackNal(&seq, ts2, true, slice, max)...)
+	pkts = append(pkts, pack(&seq, ts2, true, slice, max)...)
 	for _, p := range pkts0 {
 		un.Feed(p)
 	}
@@ -129,9 +248,20 @@ func VerifC07Rtsp() {
 	if len(sink.msgs) < 2 {
 		return
 	}
-	wantVsh := append([]byte{0x17, 0, 0, 0, 0, 1, 0x64, 0, 0x1f, 0xff, 0xe1, 0, byte(len(c05Sps))}, c05Sps...)
-	wantVsh = append(append(wantVsh, 1, 0, byte(len(c05Pps))), c05Pps...)
-	vrt.Assert(c06Eq(sink.msgs[1].Payload, wantVsh), "sequence header built from the publisher's parameter sets")
+	keyByte, interByte := byte(0x17), byte(0x27)
+	if hevc {
+		keyByte, interByte = 0x1c, 0x2c
+	}
+	isVsh := func(p []byte) bool {
+		if hevc {
+			v, s, pp, ok := c07HvccSets(p)
+			return ok && c06Eq(v, c07HevcVps) && c06Eq(s, c07HevcSps) && c06Eq(pp, c07HevcPps)
+		}
+		wantVsh := append([]byte{0x17, 0, 0, 0, 0, 1, 0x64, 0, 0x1f, 0xff, 0xe1, 0, byte(len(c05Sps))}, c05Sps...)
+		wantVsh = append(append(wantVsh, 1, 0, byte(len(c05Pps))), c05Pps...)
+		return c06Eq(p, wantVsh)
+	}
+	vrt.Assert(isVsh(sink.msgs[1].Payload), "sequence header built from the publisher's parameter sets")
 	var gotNals [][]byte
 	var gotKey []bool
 	var gotTs []uint32
@@ -140,23 +270,31 @@ func VerifC07Rtsp() {
 		if len(m.Payload) < 5 {
 			return
 		}
-		if m.Payload[0] == 0x17 && m.Payload[1] == 0 {
-			vrt.Assert(c06Eq(m.Payload, wantVsh), "in-band parameter sets become the same sequence header")
+		if m.Payload[0] == keyByte && m.Payload[1] == 0 {
+			vrt.Assert(isVsh(m.Payload), "in-band parameter sets become the same sequence header")
 			continue
 		}
 		ns, ok := c07Nals(m.Payload[5:])
 		vrt.Assert(ok && m.Payload[1] == 1, "frame message is a well-formed length-prefixed NAL list")
+		vrt.Assert(m.Payload[0] == keyByte || m.Payload[0] == interByte, "frame type and codec id")
 		for _, n := range ns {
 			gotNals = append(gotNals, n)
-			gotKey = append(gotKey, m.Payload[0] == 0x17)
+			gotKey = append(gotKey, m.Payload[0] == keyByte)
 			gotTs = append(gotTs, m.Header.TimestampAbs)
 		}
 	}
-	vrt.Assert(len(gotNals) == 2, "the two slice units, each exactly once (AUD dropped, parameter sets not forwarded as frames)")
-	if len(gotNals) == 2 {
-		vrt.Assert(c06Eq(gotNals[0], idr) && c06Eq(gotNals[1], slice), "NAL units byte for byte, in order")
-		vrt.Assert(gotKey[0] && !gotKey[1], "key frame marked as such, inter frame not")
-		vrt.Assert(gotTs[0] == ts1/90 && gotTs[1] == ts2/90, "timestamps in milliseconds")
+	want := [][]byte{idr, slice}
+	if extra != nil {
+		want = [][]byte{extra, idr, slice}
+	}
+	vrt.Assert(len(gotNals) == len(want), "the published units, each exactly once (AUD dropped, parameter sets not forwarded as frames)")
+	if len(gotNals) == len(want) {
+		for i := range want {
+			vrt.Assert(c06Eq(gotNals[i], want[i]), "NAL units byte for byte, in order")
+		}
+		last := len(want) - 1
+		vrt.Assert(gotKey[last-1] && !gotKey[last], "key frame marked as such, inter frame not")
+		vrt.Assert(gotTs[0] == ts1/90 && gotTs[last-1] == ts1/90 && gotTs[last] == ts2/90, "timestamps in milliseconds")
 	}
 	vrt.Cover("end")
 }
@@ -166,8 +304,8 @@ func VerifC07KeyFlag() {
 	sink := &c07Sink{}
 	rm := NewAvPacket2RtmpRemuxer().WithOnRtmpMsg(sink.on)
 	rm.InitWithAvConfig(nil, nil, c05Sps, c05Pps)
-	idr := c06Nal("idr", 0, 2)
-	other := c06Nal("other", vrt.Param("cls"), 2) // SEI(2) / other(4) after the IDR slice
+	idr := c06Nal("idr", false, 0, 2)
+	other := c06Nal("other", false, vrt.Param("cls"), 2) // SEI(2) / other(4) after the IDR slice
 	var p []byte
 	for _, n := range [][]byte{idr, other} {
 		p = append(p, 0, 0, 0, byte(len(n)))
